@@ -30,18 +30,45 @@ PATH_WRITE_METHODS = {"write_text", "write_bytes", "touch", "mkdir", "unlink", "
 NET_PREFIX = ("urllib.request.", "socket.", "http.client.", "subprocess.", "ftplib.", "smtplib.", "requests.", "httpx.", "ssl.", "telnetlib.", "xmlrpc.", "asyncio.open_connection", "asyncio.create_subprocess")
 
 
-def _is_const_arg(ctx, f, e):
+def _is_const_arg(ctx, f, e, _depth=0):
     """Constant-folded argument: constants, displays of such, sys.executable."""
     if isinstance(e, ast.Constant):
         return True
     if isinstance(e, (ast.List, ast.Tuple)):
-        return all(_is_const_arg(ctx, f, x) for x in e.elts)
+        return all(_is_const_arg(ctx, f, x, _depth + 1) for x in e.elts)
     if isinstance(e, ast.JoinedStr):
         return const_str(e) is not None
     if isinstance(e, (ast.Name, ast.Attribute)):
         d = ctx.m.dotted(f.rel if f else "", e) if f else None
         if d in ("sys.executable", "os.devnull", "subprocess.PIPE", "subprocess.DEVNULL", "subprocess.STDOUT"):
             return True
+    if isinstance(e, ast.BinOp) and isinstance(e.op, ast.Add):
+        return _is_const_arg(ctx, f, e.left, _depth + 1) and _is_const_arg(ctx, f, e.right, _depth + 1)
+    if isinstance(e, ast.Name) and f is not None and e.id not in f.params and _depth < 4:
+        # a local that is only ever bound to / extended by constant values
+        vals, ok = [], True
+        for n in ctx.m.walk_own(f.node):
+            if isinstance(n, ast.Assign) and any(isinstance(x, ast.Name) and x.id == e.id and isinstance(x.ctx, ast.Store) for t in n.targets for x in ast.walk(t)):
+                if len(n.targets) == 1 and isinstance(n.targets[0], ast.Name):
+                    vals.append(n.value)
+                else:
+                    ok = False
+            elif isinstance(n, ast.AugAssign) and isinstance(n.target, ast.Name) and n.target.id == e.id:
+                vals.append(n.value)
+            elif isinstance(n, (ast.For, ast.comprehension, ast.NamedExpr, ast.withitem, ast.ExceptHandler, ast.Global, ast.Nonlocal)):
+                tgt = getattr(n, "target", None) or getattr(n, "optional_vars", None)
+                if tgt is not None and any(isinstance(x, ast.Name) and x.id == e.id for x in ast.walk(tgt)):
+                    ok = False
+                if isinstance(n, (ast.Global, ast.Nonlocal)) and e.id in n.names:
+                    ok = False
+                if isinstance(n, ast.ExceptHandler) and n.name == e.id:
+                    ok = False
+            elif isinstance(n, ast.Call) and isinstance(n.func, ast.Attribute) and isinstance(n.func.value, ast.Name) and n.func.value.id == e.id:
+                if n.func.attr in ("append", "extend", "insert", "add", "update"):
+                    vals.extend(n.args)
+                elif n.func.attr not in ("copy", "index", "count"):
+                    ok = False
+        return ok and bool(vals) and all(_is_const_arg(ctx, f, v, _depth + 1) for v in vals)
     return False
 
 
